@@ -21,7 +21,7 @@ ASSUMPTIONS = ["options documented as using random directions are excluded from 
                "comparison of results covers x, resid, obj, jacobian, nf, nx, nruns, flag, msg, evaluation numbers and the diagnostic "
                "table cell by cell"]
 
-PROF = sc.make_prof(fams=["lin", "sinlin", "rosen", "hashed", "boxdomain"], noise=False, diag=0.2, reg=0.08, zero_resid=0.05,
+PROF = sc.make_prof(fams=["lin", "sinlin", "rosen", "hashed", "boxdomain"], noise=False, diag=0.2, reg=0.08, zero_resid=0.05, nolog=0.05,
                     maxfuns=["npt", "npt+1", 10, 30, 60])
 # options documented as drawing random directions; plain soft/hard restarts (geometry steps, re-initialisation with coordinate
 # directions) are deterministic and are compared
